@@ -164,7 +164,7 @@ func randomOp(r *lib.Rand) Step {
 			return Step{Op: "mt.burn", A: a, B: r.Intn(3), N: uint64(1 + r.Intn(5))}
 		}
 	case 3:
-		return Step{Op: "record.create", A: a, N: uint64(r.Intn(4))}
+		return Step{Op: "record.create", A: a, N: uint64(r.Intn(9))}
 	case 4: // htlc
 		if r.Chance(3, 5) {
 			return Step{Op: "htlc.create", A: a, B: b, C: r.Intn(3), N: uint64(1 + r.Intn(500))}
@@ -622,7 +622,12 @@ func (rs *runState) build(st Step) (sdk.Msg, string) {
 		}
 	// ---- record
 	case "record.create":
-		return &recordtypes.MsgCreateRecord{Contents: []recordtypes.Content{{Digest: fmt.Sprintf("digest-%d", st.N), DigestAlgo: "sha256", URI: "ipfs://r", Meta: "m"}}, Creator: a}, "record"
+		// 1..3 contents (a record is an ordered list; an order-dependent defect needs >= 2 entries)
+		var cs []recordtypes.Content
+		for k := uint64(0); k <= st.N%3; k++ {
+			cs = append(cs, recordtypes.Content{Digest: fmt.Sprintf("digest-%d-%d", st.N, k), DigestAlgo: "sha256", URI: "ipfs://r", Meta: "m"})
+		}
+		return &recordtypes.MsgCreateRecord{Contents: cs, Creator: a}, "record"
 	// ---- htlc
 	case "htlc.create":
 		secret, _ := hex.DecodeString(secretOf(st))
